@@ -202,6 +202,22 @@ pub fn run(args: &[String]) {
                     writeln!(out, "DETAILS {c} {s} {line}").unwrap();
                 }
             }
+            // the Send/Receive octet of an ADD-PATH capability entry, read through OpenMessage::addpath_families_vec: a defined
+            // direction is reported as such, an undefined one is an error of the whole call - never an entry that quietly disappears
+            for d in 0..=255u8 {
+                let caps = [69u8, 8, 0, 1, 1, 3, 0, 2, 1, d];
+                let mut b = vec![0xffu8; 16];
+                b.extend_from_slice(&[0, (29 + 2 + caps.len()) as u8, 1, 4, 0xfd, 0xe8, 0, 90, 10, 0, 0, 1, (2 + caps.len()) as u8, 2, caps.len() as u8]);
+                b.extend_from_slice(&caps);
+                let r = crate::util::guard(|| match routecore::bgp::message::OpenMessage::from_octets(b.clone()) {
+                    Err(_) => "REFUSED".to_string(),
+                    Ok(o) => match o.addpath_families_vec() {
+                        Err(_) => "E".to_string(),
+                        Ok(v) => format!("ok:{}", v.iter().map(|(_, x)| u8::from(*x).to_string()).collect::<Vec<_>>().join(",")),
+                    },
+                }).unwrap_or("PANIC".into());
+                writeln!(out, "APDIR {d} {r}").unwrap();
+            }
             // FSM state code points of an MRT BGP4MP state change: read from the record, and once more after the record was widened
             // to its four-octet-AS form (From<StateChange> for StateChangeAs4 copies them)
             let codes: [u16; 12] = [0, 1, 2, 3, 4, 5, 6, 7, 8, 255, 256, 65535];
